@@ -163,6 +163,20 @@ def evaluate(case, out):
             out.lib_exception("build", e)
             return
         pop = [c for c in cvrs if (c.has_contest("con") or not use_style)]
+        j0 = next((j for j, c in enumerate(cvrs) if c.has_contest("con")), None)
+        if len(cvrs) % 4 == 1 and j0 is not None and len(cvrs) <= 200:
+            # a first look at the means was taken before one card of this very list was corrected in place (it showed a vote
+            # for the last candidate only); means and margins are whatever the cards say now
+            keep = cvrs[j0].votes["con"]
+            cvrs[j0].votes["con"] = {cands[-1]: True}
+            try:
+                for a in con.assertions.values():
+                    a.assorter.mean(cvrs, use_style=use_style)
+            except Exception as e:  # noqa
+                out.lib_exception("assort(first look)", e)
+                return
+            cvrs[j0].votes["con"] = keep
+            feats.add("card-corrected-in-place-after-a-first-look")
         if kind in ("plurality", "approval"):
             if not out.expect(len(con.assertions) == len(winners) * len(losers), "assertion-count", lambda: list(con.assertions)):
                 return
